@@ -252,6 +252,14 @@ func (c c08) Run(e *Env, cs *Case) (*Outcome, error) {
 	if len(bad) == 0 {
 		bad = []string{fmt.Sprintf("exit-status | got: %d | want: %d", rc, plain.RunExit)}
 	}
+	if strings.HasPrefix(p.Cfg, "gogarble") {
+		// With a GOGARBLE subset the reflecting packages (main, util) are not
+		// obfuscated and therefore not analysed: every entry fails alike, for one
+		// reason, so it is one violation keyed by the configuration.
+		o.Violation = &Violation{Class: "reflect-output-differs", Key: "reflect-output-differs/" + p.Prog + "/gogarble-subset",
+			Detail: fmt.Sprintf("%s under %s (GOGARBLE covers only the package declaring the types): %d of the catalogue lines differ from the plain build, e.g. %s", p.Prog, p.Cfg, len(bad), bad[0])}
+		return o, nil
+	}
 	// One violation per catalogue entry, so that each is matched (or not) against
 	// the known findings on its own.
 	for _, b := range bad {
